@@ -1403,8 +1403,8 @@ class Router(NetworkNode, discriminator="router"):
         return False
 
     def subject_to_acl(self, frame: Frame) -> bool:
-        """Check that frame is subject to ACL rules."""
-        if frame.ip.protocol == "udp" and frame.is_arp:
+        """Check that frame is subject to ACL rules: everything except ARP addressed to the router itself."""
+        if frame.ip.protocol == "udp" and frame.is_arp and self.ip_is_router_interface(frame.ip.dst_ip_address):
             return False
         return True
 
